@@ -6,6 +6,10 @@ UP = b"0123456789abcxyzABZ.+~"
 WS = [b"", b" ", b"\t", b"\n", b"\r\n", b"  ", b"\xc2\xa0", b"\xe2\x80\x83", b"\xc2\x85", b"\xe3\x80\x80", b" \xe2\x80\xa8\t",
       b"\x0b", b"\x0c", b"\xe1\x9a\x80", b"\xe2\x81\x9f", b"\xe2\x80\xaf"]
 EDIT = [bytes([c]) for c in b"0123456789aZ.+~:-_ /\t\n!@"] + [b"\xc3\xa9", b"\x80", b"\xc2\xa0", b"\x00", b"\xe2\x80\x83", b"\xff", b"\xe2", b"\xc2"]
+# non-ASCII characters that LOOK like members of the Policy alphabet: Unicode decimal digits (Nd), other numerics (No, Nl),
+# letters, and look-alikes of + . ~ : - ; every one of them is outside the alphabet and must be rejected
+NONASCII = [u.encode("utf-8") for u in ["\u0663", "\u0967", "\uff11", "\U0001d7d8", "\u06f0", "\u00b2", "\u2167", "\u00bd", "\u00e9", "\uff21",
+                                         "\u0430", "\u03b1", "\uff0b", "\uff0e", "\uff5e", "\u02dc", "\uff1a", "\u2010", "\u2011", "\u2013", "\u2212", "\u00ad"]]
 EXH = [b"0", b"1", b"a", b":", b"-", b"~", b"+", b".", b" ", b"\xc2", b"\xa0", b"\x80", b"_", b"\t"]
 
 
@@ -83,6 +87,26 @@ def run(chk):
         cases.append(("vparse", [t]))
     impl, model = chk.run_both(cases)
     chk.compare("near-misses", cases, impl, model)
+    # 3b. one non-ASCII look-alike (Unicode digit, letter, punctuation) at every position of a valid rendering:
+    # such a character is outside the Policy alphabet wherever it stands, so the string must be rejected
+    cases = []
+    for _ in range(chk.n(120, 2400)):
+        e, up, rv = rand_triple(rng)
+        t = rng.choice(renderings(rng, e, up, rv))
+        for pos in range(len(t) + 1):
+            u = rng.choice(NONASCII)
+            cases.append(("vparse", [t[:pos] + u + t[pos:]]))
+            if pos < len(t) and rng.random() < 0.3:
+                cases.append(("vparse", [t[:pos] + u + t[pos + 1:]]))
+    for u in NONASCII:
+        for t in [b"1" + u, b"1." + u + b"-1", b"1-" + u, b"1-1" + u, u + b":1", b"1" + u + b":1", u, u + b"1", b"1:" + u, b"1:1" + u + b"-1", b"0" + u + b"0"]:
+            cases.append(("vparse", [t]))
+    impl, model = chk.run_both(cases)
+    chk.compare("non-ascii-lookalikes", cases, impl, model)
+    for c, i in zip(cases, impl):
+        if i != "err":
+            chk.violate({"kind": "property", "case": lib.show_case(c), "impl": i, "expected": "err",
+                         "explanation": "a version string with a non-ASCII character (outside the Policy alphabet) was accepted"})
     # 4. raw bytes
     cases = [("vparse", [gen.rand_bytes(rng, 12)]) for _ in range(chk.n(3000, 60000))]
     cases += [("vparse", [gen.rand_bytes(rng, 10, EDIT)]) for _ in range(chk.n(6000, 120000))]
@@ -120,6 +144,35 @@ def run(chk):
         cases.append(("vstring", [e, up, rv]))
     impl, model = chk.run_both(cases)
     chk.compare("string", cases, impl, model, nontrivial=lambda c, r: True)
+    # 7. the small accessors on directly constructed values, and Parse / StringWithoutEpoch / Parse
+    cases = []
+    for _ in range(chk.n(1500, 30000)):
+        e, up, rv = rand_triple(rng)
+        if rng.random() < 0.1:
+            e, up, rv = rng.choice([(0, b"", b""), (0, b"", b"1"), (1, b"", b""), (0, b"1-2", b""), (0, b"-", b""), (5, b"1:2", b"")])
+        cases.append(("vacc", [e, up, rv]))
+    impl, model = chk.run_both(cases)
+    chk.compare("accessors", cases, impl, model, nontrivial=lambda c, r: True)
+    for c, i in zip(cases, impl):
+        e, up, rv = c[1]
+        body = up + (b"-" + rv if (rv or b"-" in up) else b"")
+        want = "x%s %s %s" % (body.hex(), "T" if not rv else "F", "T" if (e == 0 and not up and not rv) else "F")
+        if i != want:
+            chk.violate({"kind": "property", "case": lib.show_case(c), "impl": i, "expected": want,
+                         "explanation": "StringWithoutEpoch / IsNative / Empty of a constructed version differ from their definition"})
+    ne = [("vnoepoch", c[1]) for c in acc]
+    ni, nm = chk.run_both(ne)
+    chk.compare("without-epoch-reparse", ne, ni, nm)
+    for c, p, r in zip(acc, pv, ni):
+        if not p.startswith("ok"):
+            continue
+        e, uph, rvh = p[3:].split(" ")
+        if b":" in bytes.fromhex(uph[1:]):
+            continue          # the text without epoch then starts with what reads as an epoch: outside the claim
+        parts = r.split(" ", 2)
+        if len(parts) < 3 or parts[2] != "ok 0 %s %s" % (uph, rvh):
+            chk.violate({"kind": "property", "case": lib.show_case(c), "parsed": p, "without_epoch_reparsed": r,
+                         "explanation": "Parse(StringWithoutEpoch(Parse(x))) is not Parse(x) with epoch 0"})
     chk.assumptions += ["epoch values above 2^63-1 cannot come out of Parse (strconv.ParseInt(..,64)); the model's N is unbounded",
                         "error messages are not compared, only accept/reject and the three parts"]
 
